@@ -52,6 +52,7 @@ typedef struct CO_SDO_SEG_T {
     uint32_t  Num;               /*!< Number of transfered bytes             */
     uint8_t   TBit;              /*!< Segment toggle bit                     */
     uint8_t   Dir;               /*!< Direction: 0=none, 1=upload, 2=download*/
+    uint8_t   SInd;              /*!< Download: size is indicated by client  */
 
 } CO_SDO_SEG;
 
